@@ -197,7 +197,7 @@ def gen_project(rng, idx: int) -> Dict[str, Any]:
     if rng.random() < 0.3:
         args += ["--html-viewsource-base=https://example.org/src", "--project-base-dir=@SRC@"]
     if rng.random() < 0.2:
-        args.append("--sidebar-expand-depth=%d" % rng.randint(0, 3))
+        args.append("--sidebar-expand-depth=%d" % rng.randint(1, 3))
     return {"id": "p%d" % idx, "files": files, "roots": roots, "args": args, "explicit": explicit,
             "docformat": fmt, "kind": "generated"}
 
@@ -660,7 +660,7 @@ def os_semantics_stream(ctx: Ctx, st: Streams, scratch: Path) -> None:
             impl = " ".join(["ok"] + toks)
         else:
             impl = status
-        st.add("os primitives~step", "determinism run | " + " ".join(ops), impl, {"ops": ops})
+        st.add("os primitives~step", "determinism exec | " + " ".join(ops), impl, {"ops": ops})
         shutil.rmtree(d, ignore_errors=True)
 
 
